@@ -259,7 +259,29 @@ parse_node_t* make_range_node (int code, parse_node_t * expr, parse_node_t * l, 
   return newnode;
 }
 
+static int pop_value_depth;
+
+static parse_node_t *insert_pop_value_1 (parse_node_t * expr);
+
 parse_node_t* insert_pop_value (parse_node_t * expr) {
+  /* "a + b + c + ...;" is followed to its far end on the C stack. Below
+   * MAX_TREE_DEPTH the value is computed and popped, which is always right. */
+  if (pop_value_depth >= MAX_TREE_DEPTH)
+    {
+      parse_node_t *replacement;
+
+      if (!expr)
+        return 0;
+      CREATE_UNARY_OP (replacement, F_POP_VALUE, 0, expr);
+      return replacement;
+    }
+  pop_value_depth++;
+  expr = insert_pop_value_1 (expr);
+  pop_value_depth--;
+  return expr;
+}
+
+static parse_node_t* insert_pop_value_1 (parse_node_t * expr) {
   parse_node_t *replacement;
 
   if (!expr)
